@@ -1,3 +1,5 @@
+# Regenerates seeded/*/meta.json (rounds 2-4) from the result files of scripts/seed_matrix.sh / try_seed_wt.sh runs
+# (directories in resdirs). Without result files the recorded outcome is kept.
 import json,os,re,glob
 info={
 'C01b':('C01','Graph.Build keeps the wait on a done-channel only for the FIRST edge seen per (pool, value); edges are walked in breadth-first discovery order, statements are emitted in topological order, so the provider that runs EARLIER in the goroutine loses its wait','two providers of one goroutine share a value produced in another goroutine, the later-running one discovered first by the BFS; the goroutine must reach the earlier one before the producer returns'),
@@ -41,8 +43,10 @@ for name,(prop,summary,needs) in info.items():
     old=os.path.join(d,'meta.json')
     if os.path.exists(old):
         o=json.load(open(old))
-        for k in ('missed_by_first','note'):
+        for k in ('missed_by_first','note','caught_by_note'):
             if k in o: meta[k]=o[k]
+        if not caught and o.get('caught_by'):
+            meta['caught_by']=o['caught_by']  # no result files at hand: keep what was recorded
     json.dump(meta,open(old,'w'),indent=1)
     print(name,caught)
 
@@ -88,8 +92,10 @@ for name,(prop,summary,needs) in info3.items():
     old=os.path.join(d,'meta.json')
     if os.path.exists(old):
         o=json.load(open(old))
-        for k in ('missed_by_first','note'):
+        for k in ('missed_by_first','note','caught_by_note'):
             if k in o: meta[k]=o[k]
+        if not caught and o.get('caught_by'):
+            meta['caught_by']=o['caught_by']  # no result files at hand: keep what was recorded
     json.dump(meta,open(old,'w'),indent=1)
     print(name,caught)
 
@@ -124,5 +130,11 @@ for name,(prop,summary,needs) in info4.items():
       'confirmed':'scripts/confirm_seed.sh (patch applies to HEAD and touches no test; suite green with it; demonstration fails with it and passes without)',
       'how_checks_were_run':'scripts/try_seed_wt.sh / scripts/seed_matrix.sh'}
     old=os.path.join(d,'meta.json')
+    if os.path.exists(old):
+        o=json.load(open(old))
+        if not caught and o.get('caught_by'):
+            meta['caught_by']=o['caught_by']
+        for k in ('note','caught_by_note'):
+            if k in o: meta[k]=o[k]
     json.dump(meta,open(old,'w'),indent=1)
     print(name,caught)
